@@ -19,7 +19,9 @@ import (
 	log "github.com/sirupsen/logrus"
 	"github.com/spf13/viper"
 
+	"pegsim/simvfs"
 	"pegsim/world"
+	"simrt"
 )
 
 type exitSentinel struct{ code int }
@@ -125,12 +127,13 @@ type Replica struct {
 	// LastCommitted is the height of the last block whose COMMIT returned.
 	LastCommitted uint32
 	StartErr      error
-	Lifetimes int
-	SQL       SQLHooks // user hooks (called in addition to the replica's own bookkeeping)
+	SeenDSN       string // data source name the daemon passed to sql.Open
+	Lifetimes     int
+	SQL           SQLHooks // user hooks (called in addition to the replica's own bookkeeping)
 	// Sched, when set before Start, parks every SQL statement and every upstream
 	// request of every goroutine until the scheduler releases it (C18).
-	Sched *Sched
-	OnCommit  func(h uint32)
+	Sched    *Sched
+	OnCommit func(h uint32)
 
 	ctx    context.Context
 	cancel context.CancelFunc
@@ -144,6 +147,12 @@ type Replica struct {
 	BlockHeight uint32
 	Attempt     map[uint32]int
 	inBlock     bool
+	// simulated-disk seam (package simvfs): when UseVFS is set before Start the
+	// daemon's database files go through the shim VFS and VFS is called before
+	// every file operation (index BlockVfsOp within the current block attempt)
+	UseVFS     bool
+	VFS        func(op *simvfs.Op) (rc int, partial int)
+	BlockVfsOp int
 }
 
 func NewReplica(w *world.World, dir string) *Replica {
@@ -186,16 +195,32 @@ func (r *Replica) Start() error {
 		pegnet.PegnetdSyncVersion = r.SyncVersion
 	}
 	r.ctx, r.cancel = context.WithCancel(context.Background())
+	// the daemon's own sql.Open (rewritten to simrt.SQLOpen in the scratch copy)
+	// is answered with a handle behind the statement seam, for the data source
+	// name the daemon itself composed; the seam stays passive while the
+	// constructor runs (r.Node == nil)
+	r.Node = nil
+	var opened *sql.DB
+	prevOpen := simrt.SQLOpen
+	simrt.SQLOpen = func(driverName, dataSourceName string) (*sql.DB, error) {
+		r.SeenDSN = dataSourceName
+		opened = r.open(dataSourceName)
+		return opened, nil
+	}
 	n, err := node.NewPegnetd(r.ctx, r.conf())
+	simrt.SQLOpen = prevOpen
 	if err != nil {
 		r.StartErr = err
 		r.cancel()
 		return err
 	}
 	r.StartErr = nil
-	// swap the handle for one behind the statement seam (same file, same DSN)
-	n.Pegnet.DB.Close()
-	n.Pegnet.DB = OpenDB(r.dsn(), &SQLHooks{Before: r.before, After: r.after}, r.W.Spec.Config.CachePages)
+	if opened == nil || n.Pegnet.DB != opened {
+		// the daemon did not open through sql.Open: swap the handle for one behind
+		// the statement seam (same file, the DSN the shipped code would compose)
+		n.Pegnet.DB.Close()
+		n.Pegnet.DB = r.open(r.dsn())
+	}
 	n.FactomClient.Factomd.Client.Transport = r.Tr
 	r.Tr.Sched = r.Sched
 	if r.Sched != nil {
@@ -237,9 +262,39 @@ func (r *Replica) Start() error {
 	return nil
 }
 
+func (r *Replica) open(dsn string) *sql.DB {
+	hooks := &SQLHooks{Before: r.before, After: r.after}
+	if r.UseVFS {
+		simvfs.Handle(r.Dir, r.vfsOp)
+		return OpenDBVFS(dsn, hooks, r.W.Spec.Config.CachePages)
+	}
+	return OpenDB(dsn, hooks, r.W.Spec.Config.CachePages)
+}
+
+// vfsOp is the replica's handler on the simulated-disk seam.
+func (r *Replica) vfsOp(op *simvfs.Op) (int, int) {
+	if r.Node == nil {
+		return 0, 0
+	}
+	rc, partial := 0, 0
+	if r.VFS != nil {
+		rc, partial = r.VFS(op)
+	}
+	if r.inBlock {
+		r.BlockVfsOp++
+	}
+	return rc, partial
+}
+
+// InBlock reports whether the daemon is between BEGIN and COMMIT / ROLLBACK of a block.
+func (r *Replica) InBlock() bool { return r.inBlock }
+
 func isDaemon(caller string) bool { return !strings.HasPrefix(caller, "api:") }
 
 func (r *Replica) before(ev *SQLEvent) error {
+	if r.Node == nil {
+		return nil
+	}
 	if r.Sched != nil {
 		r.Sched.Park("sql", ev.Caller, ev.Op)
 	}
@@ -247,6 +302,7 @@ func (r *Replica) before(ev *SQLEvent) error {
 		if ev.Op == "begin" {
 			r.inBlock = true
 			r.BlockStmt = 0
+			r.BlockVfsOp = 0
 			r.BlockHeight = r.Node.Sync.Synced + 1
 			r.Attempt[r.BlockHeight]++
 		}
@@ -262,6 +318,9 @@ func (r *Replica) before(ev *SQLEvent) error {
 }
 
 func (r *Replica) after(ev *SQLEvent, err error) {
+	if r.Node == nil {
+		return
+	}
 	if r.SQL.After != nil {
 		r.SQL.After(ev, err)
 	}
@@ -371,6 +430,9 @@ func (r *Replica) Stop() {
 		r.ro = nil
 	}
 	r.Node = nil
+	if r.UseVFS {
+		simvfs.Handle(r.Dir, nil)
+	}
 }
 
 // FinalDump reads the canonical dump of the database directory (any time the
@@ -446,6 +508,9 @@ func (r *Replica) StopScheduled(clientsDone <-chan struct{}) {
 		r.ro = nil
 	}
 	r.Node = nil
+	if r.UseVFS {
+		simvfs.Handle(r.Dir, nil)
+	}
 }
 
 // ExitCh is closed when the sync loop goroutine has ended.
